@@ -83,7 +83,12 @@ def opLine : P String := do
     | "setDiscount" => do let d ← P.x; pure (Op.setDiscount d, baseCls kb ++ "::setDiscount", false)
     | "setT3D" => do let t ← tab3 S A S; pure (Op.setT3D t, baseCls kb ++ "::setTransitionFunction3D", illTab (kb == .sparse) t)
     | "setTEigen" => do let t ← tab3 A S S; pure (Op.setTEigen t, baseCls kb ++ "::setTransitionFunctionEigen", illTab false t)
-    | "setR3D" => do let r ← tab3 S A S; pure (Op.setR3D r, baseCls kb ++ "::setRewardFunction3D", false)
+    | "setR3D" => do
+        let r ← tab3 S A S
+        -- the sparse class stores the expected reward only when it differs from 0 by more than the tolerance:
+        -- values within 1e-12 of that boundary cannot be compared between double and exact arithmetic
+        let ill := kb == Rep.sparse && (List.range S).any (fun s => (List.range A).any (fun a => illEntry (expReward S r pre.T s a)))
+        pure (Op.setR3D r, baseCls kb ++ "::setRewardFunction3D", ill)
     | "setREigen" => do let r ← tab2 S A; pure (Op.setREigen r, baseCls kb ++ "::setRewardFunctionEigen", false)
     | "setO3D" => do let o ← tab3 S A O; pure (Op.setO3D o, obsCls ko ++ "::setObservationFunction3D", illTab (ko == .sparse) o)
     | "setOEigen" => do let o ← tab3 A S O; pure (Op.setOEigen o, obsCls ko ++ "::setObservationFunctionEigen", illTab false o)
